@@ -19,6 +19,10 @@ claimed = {
          "aliased grids (shared descriptions), findFirstCandidate and the group-cycling recursion are not under contract (stated, not bounded-checked); float64 treated as mathematical real in math.Ceil"),
  "C17": ("DESIGN.md §4 C17", "vi-delete-to and vi-yank-to stated against one pair of spec functions opB/opE (= Selection.Pos() after adjustSelectionPending): delete removes line[b:e] and stores it, yank stores the same line[b:e] and leaves the buffer unchanged; dd/yy likewise against lineB/lineE with the same newline rule",
          "viCommandMode and Display.ResetHelpers trusted (completion/hint code); only the operator bodies are proved, the pending-operator hand-off in the main loop is A-LOOP; index safety of the other branches assumed (assume_nopanic)"),
+ "C08": ("DESIGN.md §4 C08", "Sources.Write proved against the statement for every bound source in any map order (loop invariant over the ghost key sequence): never when replaying or blank, at most one appended entry equal up to white space, exactly one unless the source is full or the line duplicates its last entry; Accept records only when err == nil; LineAccepted returns the accepted buffer; memory source checked against the Source interface contract",
+         "Source interface contract assumed for application sources (fileHistory.Write not yet verified against it); sources bound under different names assumed distinct; the accept-* commands' choice of Accept call is A-LOOP"),
+ "C09": ("DESIGN.md §4 C09", "Walk/Fetch/GetLast/InsertMatch/match/InferNext/getLine/restoreLineBuffer: sources never modified (frame obligations), history position stays in [-1, Len], every GetLine index in range at both ends, the buffer ends up as a stored entry (in order, most recent first), an edited entry, or the text being typed",
+         "Source interface contract assumed; substring search treated through regexp (assumed total, no match semantics); incremental search (Ctrl-R/Ctrl-S) not covered; search text cut by rune position on a byte string noted"),
 }
 not_applicable = {
  "C04": "needs a VT100 cell-grid interpreter of the emitted byte stream as oracle; contracts on the repository's functions cannot state what a terminal shows (DESIGN.md §4 C04)",
@@ -29,8 +33,6 @@ pending = {
  "C02": "not yet claimed: needs the dispatcher contracts (DESIGN.md §7 step 3)",
  "C03": "not yet claimed: needs the dispatcher contracts (DESIGN.md §7 step 3)",
  "C05": "not yet claimed: needs the ghost input stream layer (DESIGN.md §7 step 3)",
- "C08": "not yet claimed: history sources contracts not yet written",
- "C09": "not yet claimed: history navigation contracts not yet written",
  "C10": "not yet claimed: assumed-library layer not reached yet (DESIGN.md §4 C10)",
  "C11": "not yet claimed: ghost termios / defers on the panic edge not yet built",
  "C18": "not yet claimed: macro engine contracts not yet written",
